@@ -624,6 +624,13 @@ def _maybe_arr(it, x):
 
 def call_arr_method(it, a: Arr, name, pos, kw):
     ctx = it.ctx
+    if name == "append" and a.kind == "list" and a.ndim == 1 and T.is_scalar(pos[0]):
+        # list.append on a list of scalars of symbolic length (in place)
+        old, n_, x = N.snap(a).fn, a.shape[0], pos[0]
+        a.shape = (T.add(n_, 1),)
+        a.fn = lambda i, old=old, n_=n_, x=x: T.Ite(T.eq(i, n_), cast_elem(x, a.dtype), old(i))
+        a.version += 1
+        return None
     if name == "copy":
         b = Arr(a.shape, (lambda *i, f=a.fn: f(*i)), a.dtype, a.kind)
         b.rowfn = getattr(a, "rowfn", None)
